@@ -95,6 +95,19 @@ func inputClass(e *refEntry, role string) string {
 	return "plain"
 }
 
+// countBoundary counts puts whose offset is an exact multiple of 32 GiB (four low offset bytes zero) or one unit off it
+func countBoundary(level string, off int64) {
+	if types.OffsetSize != 5 {
+		return
+	}
+	switch units := off >> 3; {
+	case units&0xffffffff == 0:
+		r.Count(level+"_puts_at_exact_32GiB_multiple", 1)
+	case (units+1)&0xffffffff == 0 || (units-1)&0xffffffff == 0:
+		r.Count(level+"_puts_next_to_32GiB_multiple", 1)
+	}
+}
+
 // offsets: strictly increasing synthetic offsets; the 5-byte build sets the 5th byte.
 type offGen struct {
 	next int64
@@ -107,6 +120,17 @@ func (g *offGen) take() int64 {
 	if types.OffsetSize == 5 {
 		// units = off/8; put a non-zero value into bits 32..39 of the unit count
 		hb := int64(1 + g.rng.Intn(255))
+		switch g.rng.Intn(8) {
+		case 0:
+			// an exact multiple of 32 GiB: the four low offset bytes are zero, only the 5th byte is set
+			return hb << 35
+		case 1:
+			// the neighbours of such a boundary (one padding unit below / above)
+			if g.rng.Intn(2) == 0 {
+				return hb<<35 - 8
+			}
+			return hb<<35 + 8
+		}
 		off += hb << 35
 	}
 	return off
@@ -330,6 +354,7 @@ func runValueCase(c vcase) (res bool) {
 			m.Set(o.Key, o.Off, o.Size)
 			e.put(o.Off, o.Size, o.Role)
 			r.Count("vm_set", 1)
+			countBoundary("vm", o.Off)
 		case "D":
 			got := m.Delete(o.Key)
 			want := int32(0)
@@ -927,6 +952,7 @@ func runNmCaseQuiet(c nmcase, dir string) bool {
 			}
 			e.put(o.Off, o.Size, o.Role)
 			r.Count("nm_put", 1)
+			countBoundary("nm", o.Off)
 		case "D":
 			if !(e.st == 1 && e.size > 0) {
 				rawDelete = true
@@ -1022,8 +1048,8 @@ func runNmCaseQuiet(c nmcase, dir string) bool {
 					}
 					sig["difference"] = d
 				}
-				if congruent && (c.Kind == "memory" || rk == "memory") {
-					sig["alias"] = aliasTag
+				if congruent && (c.Kind == "memory" || rk == "memory") && !e.zero {
+					sig["alias"] = aliasTag // a key that was put with size>0 differs and the sequence holds a key congruent modulo 2^32
 				}
 				if r.Violation(sig, map[string]interface{}{"msg": "lookup after reload differs from the live map", "key": k,
 					"live": []interface{}{ok1, o1, s1}, "reloaded": []interface{}{ok2, o2, s2}, "case": c}) {
@@ -1055,8 +1081,8 @@ func runNmCaseQuiet(c nmcase, dir string) bool {
 				}
 				rel := relation(name, loader, hasZero, a, b, uint64(len(putKeys)), entries, uint64(re.FileCount))
 				sig["relation"] = rel
-				if congruent && loader == "doLoading" {
-					sig["alias"] = aliasTag
+				if congruent && loader == "doLoading" && !(hasZero && (name == "FileCount" || name == "DeletedCount")) {
+					sig["alias"] = aliasTag // FileCount/DeletedCount differences of size-0 sequences belong to the size-zero entries
 				}
 				if r.Violation(sig, map[string]interface{}{"msg": "counter after reload differs from the live counter", "counter": name,
 					"live": live, "reloaded": re, "live_kind": c.Kind, "reload_kind": rk, "case": c}) {
@@ -1560,7 +1586,7 @@ func runVolCase(c volcase) bool {
 					sig["input"] = "size-zero"
 				}
 				sig["relation"] = relation(name, loader, hasZero, a, b, uint64(len(putKeys)), idxEntries, uint64(after.FileCount))
-				if aliasDelete && loader == "doLoading" {
+				if aliasDelete && loader == "doLoading" && !(hasZero && (name == "FileCount" || name == "DeletedCount")) {
 					sig["alias"] = aliasTag
 				}
 				if r.Violation(sig, map[string]interface{}{"msg": "volume counter after reopen differs", "counter": name, "before": before, "after": after, "at": i, "case": c}) {
@@ -1579,7 +1605,7 @@ func runVolCase(c volcase) bool {
 				if bl != al || (bl && (a.Len != b.Len || a.Sum != b.Sum)) {
 					e := get(k)
 					sig := lib.Sig{"op": "reload", "class": "lookup-differs", "live_kind": c.Kind, "reload_kind": c.Kind, "level": "volume", "input": inClass(e), "build": build}
-					if c.Kind == "memory" {
+					if c.Kind == "memory" && inClass(e) != "size-zero" {
 						for k2 := range ref {
 							if k2 != k && (k2%(1<<32)) == (k%(1<<32)) {
 								sig["alias"] = aliasTag // the history holds another key congruent modulo 2^32 (memory map: aliasing defect)
@@ -1694,7 +1720,7 @@ func main() {
 	r.SetRule("op sequences (Set/Put, Delete, Get, reopen) against (i) CompactMap/MemDb, (ii) NeedleMapper kinds memory/leveldb/sorted over real .idx files, (iii) whole volumes; every lookup compared with a reference map, delete return values with the live size, counters+lookups of the live map with a map freshly loaded from the same .idx; bounded-exhaustive over 4 keys with distinct roles (existing / look-back window / overflow / beyond end; beyond the 2^32 section span) plus seeded random sequences with key orders ascending, descending, back-jumps <=128 and >128, duplicates, 2^32-span, 100000-entry batch crossing; both offset widths. distinct = distinct (build, level, implementation, op sequence); non-trivial = sequence contains at least one insertion")
 	r.Assume("a key counts as 'reported deleted' when Get returns not-found or a size with IsDeleted(); live and reloaded lookups are compared after this normalisation")
 	r.Assume("counter equality live-vs-reloaded is judged only for sequences a Volume can issue (deletes only on keys that are live with size>0); raw NeedleMapper deletes of absent/deleted keys are judged on lookups only")
-	r.Assume("offsets are synthetic at levels (i)/(ii) (5-byte build: 5th byte non-zero); real at level (iii) (volumes of a few hundred KiB, 5th byte zero)")
+	r.Assume("offsets are synthetic at levels (i)/(ii) (5-byte build: 5th byte non-zero; one put in four uses an exact multiple of 32 GiB - low four offset bytes zero - or its neighbour one padding unit below/above); real at level (iii) (volumes of a few hundred KiB, 5th byte zero)")
 	r.Note("build_of_this_process", build)
 	r.Count("build_"+build, 1)
 
@@ -1779,6 +1805,9 @@ func main() {
 		}
 	}
 
+	if types.OffsetSize == 5 && (r.Counter("vm_puts_at_exact_32GiB_multiple") == 0 || r.Counter("nm_puts_at_exact_32GiB_multiple") == 0) {
+		r.Inconclusive("no put at an exact 32 GiB multiple in the 5-byte build")
+	}
 	pprof.StopCPUProfile()
 	if isParent {
 		<-childDone
